@@ -229,7 +229,10 @@ func (k *dSink) Write(p []byte) (int, error) {
 		if m.delivered == 1 {
 			m.delivTick = r.t()
 		}
-		if r.sinkClosed > 0 && r.on("C11") {
+		if r.sinkClosed > 0 && r.on("C11") && r.owed(m) {
+			// (a message whose Write began after Close had been called - an alerter that writes
+			// back into the diode while Close reports the last drops - is outside the statement:
+			// what a later Close does with it is not specified)
 			zsim.Fail("C11.delivery_after_close", "message %s was handed to the wrapped writer after that writer had been closed", m.id)
 		}
 		if m.delivered > 1 && r.on("C10") {
